@@ -272,16 +272,27 @@ theorem CompInv.of_bf {s : St} (hcc : s.completeCClosed = s.completed)
     (hall : s.completed = true → s.bf = none ∨ ∃ b, s.bf = some b ∧ allTrue b = true)
     (hbf : s.bf.isSome = true) : CompInv s := ⟨hcc, hall, fun _ _ _ _ _ => hbf⟩
 
-theorem hadFresh_comp (m : M) (h : CompInv m.1) : CompInv (hadFresh m).1 := by
-  unfold hadFresh
-  apply hadCheck_comp
+/-- fresh: the new bitfield replaces everything; only the `cc` clause of the source is needed -/
+theorem hadFreshInstall_comp (m : M) (hcc : m.1.completeCClosed = m.1.completed) :
+    CompInv (hadFreshInstall m).1 := by
+  unfold hadFreshInstall
   simp only [onSt_fst]
   apply markPaddingPieces_comp
-  obtain ⟨hcc, hall, hrun⟩ := h
   unfold St.resetCompletion
   split
   · exact CompInv.of_bf rfl (fun h => by cases h) rfl
   · next hc => exact CompInv.of_bf hcc (fun h => absurd h hc) rfl
+
+theorem hadFresh_comp' (m : M) (hcc : m.1.completeCClosed = m.1.completed) : CompInv (hadFresh m).1 := by
+  unfold hadFresh
+  dsimp only
+  have h0 := hadFreshInstall_comp m hcc
+  split
+  · simp only [onSt_fst]
+    exact stop_comp _ _ (h0.of_frame rfl rfl rfl rfl rfl rfl rfl rfl)
+  · exact hadCheck_comp _ h0
+
+theorem hadFresh_comp (m : M) (h : CompInv m.1) : CompInv (hadFresh m).1 := hadFresh_comp' m h.cc
 
 theorem hadTrust_comp (m : M) (b : List Bool) (hb : m.1.bf = some b) (h : CompInv m.1) :
     CompInv (hadTrust m b).1 := by
@@ -318,14 +329,7 @@ theorem handleAllocationDone_comp (m : M) (ex mi : Bool) (h : CompInv m.1) :
   · next hb =>
     split
     · -- fresh: the new bitfield replaces everything
-      unfold hadFresh
-      apply hadCheck_comp
-      simp only [onSt_fst]
-      apply markPaddingPieces_comp
-      unfold St.resetCompletion
-      split
-      · exact CompInv.of_bf rfl (fun h => by cases h) rfl
-      · next hc => exact CompInv.of_bf hcc (fun h => absurd h hc) rfl
+      exact hadFresh_comp' _ hcc
     · simp only [onSt_fst]
       exact ⟨hcc, hall, fun _ _ _ hv => by simp at hv⟩
 
